@@ -53,4 +53,10 @@ def subchecks(tier):
                            classes=classes, n={"quick": 3000, "thorough": 20000}, abort_is_violation="C14",
                            rule="capacitated pre-emptive slotted node feeding ordinary and scheduled nodes (reneging, blocking downstream): "
                                 "customers that were interrupted and resumed keep being owed their events")
-    return [base, region, exact_dec, feed, fuzz_subcheck(base, tier)]
+    mixed = system_subcheck("mixed_calls", common.full_profile("C14", plans=("mixed",), horizon=(2.0, 10.0)), lambda spec: [Horizon()],
+                            lambda a, spec, res: a.get("events", 0) >= 30 and res.calls_completed >= 2,
+                            classes=lambda a, spec, res: classes(a, spec, res) + ["calls_" + "-".join(x[0][4:] for x in spec["plan"]["steps"])],
+                            n={"quick": 4800, "thorough": 30000}, abort_is_violation="C14",
+                            rule="one Simulation continued by 2-4 calls of simulate_until_max_time and simulate_until_max_customers in any order (increasing horizons, "
+                                 "increasing absolute counts, all four counting methods); same horizon / count monitor per call")
+    return [base, region, exact_dec, feed, mixed, fuzz_subcheck(base, tier)]
